@@ -38,14 +38,14 @@ struct _table_cp1610 table_cp1610[] =
   { "nop" , 0x0035, 0xffff, CP1610_OP_NONE, 6, 6 },
   { "sin" , 0x0036, 0xffff, CP1610_OP_NONE, 6, 6 },
   { "sin" , 0x0037, 0xffff, CP1610_OP_NONE, 6, 6 },
-  { "swap", 0x0040, 0xffc0, CP1610_OP_1OP, 6, 8 },
-  { "sll",  0x0048, 0xffc0, CP1610_OP_1OP, 6, 8 },
-  { "rlc",  0x0050, 0xffc0, CP1610_OP_1OP, 6, 8 },
-  { "sllc", 0x0058, 0xffc0, CP1610_OP_1OP, 6, 8 },
-  { "slr",  0x0060, 0xffc0, CP1610_OP_1OP, 6, 8 },
-  { "sar",  0x0068, 0xffc0, CP1610_OP_1OP, 6, 8 },
-  { "rrc",  0x0070, 0xffc0, CP1610_OP_1OP, 6, 8 },
-  { "sarc", 0x0078, 0xffc0, CP1610_OP_1OP, 6, 8 },
+  { "swap", 0x0040, 0xfff8, CP1610_OP_1OP, 6, 8 },
+  { "sll",  0x0048, 0xfff8, CP1610_OP_1OP, 6, 8 },
+  { "rlc",  0x0050, 0xfff8, CP1610_OP_1OP, 6, 8 },
+  { "sllc", 0x0058, 0xfff8, CP1610_OP_1OP, 6, 8 },
+  { "slr",  0x0060, 0xfff8, CP1610_OP_1OP, 6, 8 },
+  { "sar",  0x0068, 0xfff8, CP1610_OP_1OP, 6, 8 },
+  { "rrc",  0x0070, 0xfff8, CP1610_OP_1OP, 6, 8 },
+  { "sarc", 0x0078, 0xfff8, CP1610_OP_1OP, 6, 8 },
   { "jr",   0x0087, 0xffc7, CP1610_OP_JR, 7, 7 },
   { "movr", 0x0080, 0xffc0, CP1610_OP_SREG_DREG, 6, 7 },
   { "addr", 0x00c0, 0xffc0, CP1610_OP_SREG_DREG, 6, 6 },
